@@ -373,4 +373,53 @@ func rulesC20(c *Ctx) {
 			}), "purge:only-nonempty-lists", pf, pg.Node(v), "removeFirst is called only on lists that still hold bytes (guards: %s)", atomsString(guards))
 		}
 	})
+
+	c.Rule("R-C20-5", "a stream's list, and a session's table of lists, are created only when missing: every store into these maps is guarded by the failed comma-ok lookup of the same map (re-opening a known stream must not replace its list: the events would vanish while the byte total keeps counting them)", func() {
+		isListMap := func(t types.Type) bool {
+			m, ok := t.Underlying().(*types.Map)
+			if !ok {
+				return false
+			}
+			el := m.Elem()
+			if pt, ok := el.(*types.Pointer); ok && namedOf(pt.Elem()) == dlT {
+				return true
+			}
+			if m2, ok := el.Underlying().(*types.Map); ok {
+				if pt, ok := m2.Elem().(*types.Pointer); ok && namedOf(pt.Elem()) == dlT {
+					return true
+				}
+			}
+			return false
+		}
+		n := 0
+		for _, f := range c.funcsWithLits(pM) {
+			r := f.Root()
+			if r.Recv() == nil || namedOf(r.Recv().Type()) != st {
+				continue
+			}
+			g := f.Graph()
+			for _, w := range Writes(f.Body, false) {
+				m, k, isIx := indexOf(w.LHS)
+				if !isIx || !isListMap(f.TypeOf(m)) {
+					continue
+				}
+				n++
+				// the comma-ok of a lookup m[k] in the same function
+				var okVar types.Object
+				for _, w2 := range Writes(f.Body, false) {
+					as, isAs := w2.Stmt.(*ast.AssignStmt)
+					if !isAs || len(as.Lhs) != 2 || len(as.Rhs) != 1 {
+						continue
+					}
+					m2, k2, isIx2 := indexOf(as.Rhs[0])
+					if isIx2 && sameExpr(m2, m) && sameExpr(k2, k) && g.Dominates(g.VertexOf(w2.Stmt), g.VertexOf(w.Stmt)) {
+						okVar = f.ObjOf(as.Lhs[1])
+					}
+				}
+				guards := g.GuardsAt(g.VertexOf(w.Stmt))
+				c.Check(okVar != nil && hasAtom(guards, func(a Atom) bool { return !a.Val && f.ObjOf(a.E) == okVar }), "create-only-when-missing:"+f.Name()+"#"+itoa(n), f, w.Stmt, "the store into %s is on the branch where the lookup of the same key failed (guards: %s)", exprStr(m), atomsString(guards))
+			}
+		}
+		c.Pin("stores into the session/stream maps", n, 2)
+	})
 }
